@@ -617,7 +617,7 @@ func (s *Sim) handler(h int) mqtt.Handler {
 }
 
 func msgPkt(m *mqtt.Message) *Pkt {
-	return &Pkt{Type: TPublish, Topic: m.Topic, Pay: string(m.Payload), QoS: byte(m.QoS), Retain: m.Retain, Dup: m.Dup, ID: m.ID}
+	return &Pkt{Type: TPublish, Topic: m.Topic, Pay: shortPay(m.Payload), QoS: byte(m.QoS), Retain: m.Retain, Dup: m.Dup, ID: m.ID}
 }
 
 // sampleAll records Err()/Done() of every BaseClient whenever they change.
